@@ -105,7 +105,9 @@ class TreeGen:
             child = self.newfile(f.depth + 1)
             td = target_depth if (first and force_chain) else r.randint(f.depth + 1, target_depth)
             self.build(child, lines[a:b], td, first and force_chain)
-            f.entries.append(Inc(child, rand_style(r)))
+            inc = Inc(child, rand_style(r))
+            inc.range_balanced = balanced(lines[a:b])  # the part stands for whole statements / whole blocks
+            f.entries.append(inc)
             first = False
             pos = b
         f.entries.extend(lines[pos:])
@@ -169,7 +171,7 @@ def balanced(lines):
             depth -= 1
             if depth < 0:
                 return False
-        elif re.fullmatch(r"[A-Za-z_]+", w):
+        elif re.fullmatch(r"[A-Za-z_]+", w) and w.upper() != "AUTO":  # (PROJECTION AUTO END: AUTO is a value)
             depth += 1
     return depth == 0
 
@@ -192,7 +194,7 @@ def balanced_cuts(r, lines, k):
         if w.upper() == "END":
             if stack:
                 stack.pop()
-        elif re.fullmatch(r"[A-Za-z_]+", w):
+        elif re.fullmatch(r"[A-Za-z_]+", w) and w.upper() != "AUTO":
             stack.append((w.upper(), li))
     out = []
     incs = []
@@ -292,7 +294,7 @@ def _run(ctx, base):
     cwds = [os.path.join(base, "cwd1"), os.path.join(base, "cwd2", "nested"), base]
     for c in cwds:
         os.makedirs(c, exist_ok=True)
-    n = ctx.n(160, 6000)
+    n = ctx.n(200, 7000)
     for j in range(n):
         # every third tree is cut out of a document with strings that run over several lines (cuts only between statements, so
         # an included file may begin with a line that ends inside a string)
@@ -324,6 +326,12 @@ def _run(ctx, base):
             if dag:
                 res.count("dag_cases")
                 res.seen("dag-kinds", f"first@{dag['first_depth']} second@{dag['second_depth']} height={dag['height_below']}")
+        # the word "include" in places that are no directive: comments in files that include nothing themselves (also the deepest ones)
+        for f, _d in dfs(root):
+            if not any(isinstance(e, Inc) for e in f.entries) and r.random() < 0.4:
+                f.entries.insert(r.randint(0, len(f.entries)), r.choice(["  # fields to include: a, b", "# Include \"x.map\" was removed here",
+                                                                         "  # wms_include_items all", "#include"]))
+                res.count("files_mentioning_include_without_directive")
         write_tree(root, rootdir, files)
         depth = max_depth(root)
         ninc = len(files) - 1
@@ -417,7 +425,20 @@ def _run(ctx, base):
             res.count("no_expand_cases")
             # a root whose blocks are opened or closed inside an include file is a different document without expansion (it may
             # not parse, or parse with the directive inside a block that a later block of the same kind replaces) - not judged
-            self_contained = all(balanced(flatten(e.target)) for e in root.entries if isinstance(e, Inc))
+            self_contained = all(getattr(e, "range_balanced", False) for e in root.entries if isinstance(e, Inc))
+            if self_contained:
+                stack = []
+                for e in root.entries:
+                    if isinstance(e, Inc):
+                        if not stack or (stack[-1] in NO_DIRECTIVE_PARENTS and stack[-1] not in ("METADATA", "VALIDATION", "VALUES", "CONNECTIONOPTIONS")):
+                            self_contained = False  # a directive inside PATTERN / POINTS / PROJECTION is not Mapfile data
+                    else:
+                        w = e.strip()
+                        if w.upper() == "END":
+                            if stack:
+                                stack.pop()
+                        elif w.isalpha() and w.upper() != "AUTO":
+                            stack.append(w.upper())
             try:
                 d = mappyfile.open(root_path, expand_includes=False) if self_contained else None
                 if d is None:
@@ -485,6 +506,8 @@ def _run(ctx, base):
             want_groups = sorted(tuple(v) for v in by_owner.values())
             case = {"via": "loads(expand_includes=False)", "root": None, "depth": 1, "includes": len(incs), "root_text": rt[:6000]}
             viaf = r.choice(["loads", "open"])
+            case["via"] = viaf + "(expand_includes=False)"
+            case["root_text"] = rt[:20000]
             try:
                 if viaf == "open":
                     fn = os.path.join(rootdir, "noexpand.map")
